@@ -110,7 +110,7 @@ def main():
         conf = open(os.path.join(d, 'confirm.log')).read() if os.path.exists(os.path.join(d, 'confirm.log')) else ''
         mx = {}
         p = os.path.join(MX, i + '.txt')
-        matrix_from = 'current machinery'
+        matrix_from = 'cross-check cells: the machinery at the time this change was first tested (later engine changes were not re-run on them); target cell: final machinery (official_run)'
         if not os.path.exists(p) and os.path.exists(os.path.join(d, 'meta.json')):
             try:
                 old = json.load(open(os.path.join(d, 'meta.json')))
